@@ -323,6 +323,18 @@ func (mq *memtableQueue) Rotate() {
 	mq.rotateNoLock()
 }
 
+// rotateIfNotEmpty freezes the active memtable if it holds any document, so
+// that an explicit Flush or Close also persists documents that have not yet
+// filled a memtable.
+func (mq *memtableQueue) rotateIfNotEmpty() {
+	mq.mu.Lock()
+	defer mq.mu.Unlock()
+
+	if mq.mutable.count() > 0 {
+		mq.rotateNoLock()
+	}
+}
+
 // rotateNoLock performs rotation without acquiring the lock.
 // Must be called with mq.mu held.
 func (mq *memtableQueue) rotateNoLock() {
